@@ -158,6 +158,9 @@ pub fn replay_mode(mode: Mode, case: &Case) -> Result<Verdict, String> {
     let st = parse_ty(case.get("ty")?)?;
     let n = case.usize("n")?;
     let kind = case.get("kind")?.to_string();
+    if kind == "tour" {
+        return super::xsize::replay(case, &|w, k, th| word_tour(mode, w, k, th));
+    }
     if kind == "walk" {
         let g = Grp::from_name(case.get("g")?).ok_or("bad group")?;
         let r = Run::new("C04", crate::engine::Tier::Quick, 0);
@@ -249,7 +252,7 @@ fn explore_f<L: Tab>(l: &mut Local, mode: Mode, st: bool, f: &TT, g: Grp, meta: 
                 let ng = group::generators(f.n, g).len();
                 for gen in (0..ng).chain([usize::MAX]) {
                     match check_meta::<L>(f, g, gen) {
-                        Ok(()) => l.tr(hf, 100 + gen as u64, g as u64),
+                        Ok(()) => l.tr(hf, (gen as u64).wrapping_add(100), g as u64),
                         Err(v) => {
                             l.transitions += 1;
                             l.validated += 1;
@@ -638,6 +641,134 @@ fn family_section(run: &Run, mode: Mode, n: usize, g: Grp, count: usize, meta_ev
     );
 }
 
+/// Small functions embedded in a large table: g(x_a, x_b, x_c) as a function of n variables,
+/// for every 3-variable g and a set of ordered variable triples. All embeddings of one g are
+/// P-equivalent (one model orbit minimum per g, and all must receive it); under N each
+/// embedding has its own orbit. These tables tie on whole words under many group elements.
+fn embedded_section(run: &Run, mode: Mode, n: usize, g: Grp) {
+    let mut triples: Vec<[usize; 3]> = Vec::new();
+    if run.thorough() {
+        for a in 0..n {
+            for b in 0..n {
+                for c in 0..n {
+                    if a != b && a != c && b != c {
+                        triples.push([a, b, c]);
+                    }
+                }
+            }
+        }
+    } else {
+        for base in [[0usize, 1, 2], [n - 3, n - 2, n - 1], [0, 3, n - 1], [2, n - 2, n - 1]] {
+            for p in group::permutations(3) {
+                triples.push([base[p[0] as usize], base[p[1] as usize], base[p[2] as usize]]);
+            }
+        }
+        triples.sort();
+        triples.dedup();
+    }
+    let nt = triples.len() as u64;
+    let embed = |gw: u64, tr: &[usize; 3]| TT::from_fn(n, |m| (gw >> (((m >> tr[0]) & 1) | (((m >> tr[1]) & 1) << 1) | (((m >> tr[2]) & 1) << 2))) & 1 != 0);
+    run.section(
+        &format!("{} EMBEDDED n={} {}: all 256 3-variable functions g(x_a,x_b,x_c) x {} ordered variable triples", mode.id(), n, g.name(), nt),
+        false,
+        "every 3-variable function embedded at the listed ordered triples (quick: all orders of 4 position sets; thorough: all n(n-1)(n-2)); P: one model orbit minimum per g shared by all its embeddings",
+        256,
+        1,
+        |r, l| {
+            for gw in r {
+                let first = embed(gw, &triples[0]);
+                let shared_min = if g == Grp::P && mode == Mode::C04 { Some(orbit_min(&first, g).0) } else { None };
+                for (k, tr) in triples.iter().enumerate() {
+                    let f = embed(gw, tr);
+                    let own_min = if g == Grp::N && mode == Mode::C04 { Some(orbit_min(&f, g).0) } else { None };
+                    let km = shared_min.as_ref().or(own_min.as_ref());
+                    fn ex<L: Tab>(l: &mut Local, mode: Mode, st: bool, f: &TT, g: Grp, km: Option<&TT>) {
+                        explore_f::<L>(l, mode, st, f, g, false, km)
+                    }
+                    if (k as u64 + gw) % 2 == 0 {
+                        for_static!(n, ex(l, mode, true, &f, g, km));
+                    } else {
+                        ex::<volute::Lut>(l, mode, false, &f, g, km);
+                    }
+                }
+                if gw == 0x1e {
+                    l.sample(J::s(case_str(true, &embed(gw, &triples[0]), g, "canon", 0)));
+                }
+            }
+        },
+    );
+}
+
+// -------------------------------------------------------------------- same-word tours
+
+fn tour_words(thorough: bool) -> Vec<u64> {
+    let mut w: Vec<u64> = if thorough { (0..256u64).collect() } else { vec![0x00, 0x01, 0x03, 0x06, 0x07, 0x0f, 0x16, 0x17, 0x18, 0x19, 0x1b, 0x1e, 0x3c, 0x69, 0x6b, 0x7e, 0x80, 0xe8, 0xfe, 0xca, 0x96, 0xaa] };
+    w.extend([0x8000u64, 0x6996, 0x1ee1, 0xfffe, 0x0001_0000, 0x8000_0000, 0x0116_6997]);
+    w
+}
+
+const TOUR_WORDS: usize = 2;
+
+fn word_tour_count(thorough: bool) -> usize {
+    (tour_words(thorough).len() + TOUR_WORDS - 1) / TOUR_WORDS
+}
+
+/// The same table word canonized as a table of every size it fits (0..=6), every ordered
+/// pair of sizes consecutively for each group, then every ordered pair of groups at each
+/// size; both types alternate. Results must not depend on the previous call.
+fn word_tour(mode: Mode, which: &str, k: usize, thorough: bool) -> Result<super::xsize::Tour, String> {
+    if which != "words" {
+        return Err(format!("unknown tour family {}", which));
+    }
+    let words: Vec<u64> = tour_words(thorough).into_iter().skip(k * TOUR_WORDS).take(TOUR_WORDS).collect();
+    if words.is_empty() {
+        return Err("no such tour".into());
+    }
+    let mut t = super::xsize::Tour::new(format!("words:{}", k));
+    for w in words {
+        let sizes: Vec<usize> = (0..=6usize).filter(|n| *n == 6 || w >> nbits(*n) == 0).collect();
+        let npn_top = if thorough { 6 } else { 5 };
+        let mut mins: std::collections::BTreeMap<(u8, usize), std::sync::Arc<TT>> = std::collections::BTreeMap::new();
+        let mut seq: Vec<(Grp, usize)> = Vec::new();
+        for g in [Grp::Npn, Grp::P, Grp::N] {
+            let sz: Vec<usize> = sizes.iter().copied().filter(|n| g != Grp::Npn || *n <= npn_top).collect();
+            for s in super::xsize::size_pairs(&sz) {
+                seq.push((g, s));
+            }
+        }
+        for s in &sizes {
+            if *s <= npn_top {
+                for g in [Grp::P, Grp::N, Grp::Npn, Grp::N, Grp::P, Grp::Npn, Grp::P] {
+                    seq.push((g, *s));
+                }
+            }
+        }
+        let n3 = seq.len();
+        let seq3: Vec<(Grp, usize)> = seq.iter().chain(seq.iter()).chain(seq.iter()).copied().collect();
+        for (idx, (g, s)) in seq3.into_iter().enumerate() {
+            let f = TT::from_u64(s, w);
+            let min = if mode == Mode::C04 { Some(mins.entry((g as u8, s)).or_insert_with(|| std::sync::Arc::new(orbit_min(&f, g).0)).clone()) } else { None };
+            // first pass: the types alternate; second: the alias only; third: the dynamic table only
+            let st = if idx < n3 { idx % 2 == 0 } else { idx < 2 * n3 };
+            t.push(format!("{} {}_canonization n={} [{:x}]", if st { "LutN" } else { "Lut" }, g.name(), s, w), move || {
+                fn one<L: Tab>(mode: Mode, f: &TT, g: Grp, min: Option<&TT>) -> Verdict {
+                    match mode {
+                        Mode::C04 => check_min::<L>(f, g, min).map(|_| ()),
+                        Mode::C05 => check_cert::<L>(f, g).map(|_| ()),
+                    }
+                }
+                for_type!(st, f.n, one(mode, &f, g, min.as_deref()))
+            });
+        }
+    }
+    Ok(t)
+}
+
+fn word_histories(run: &Run, mode: Mode) {
+    let th = run.thorough();
+    super::xsize::run_tours(run, mode.id(), "words (the same table word canonized at consecutive sizes and by consecutive groups)", "the words of 3-variable NPN class representatives and some 4- and 5-variable words (thorough: all 256) as tables of every size 0..=6 they fit: every ordered pair of sizes per group (NPN to n=5, thorough 6), every ordered pair of groups per size", word_tour_count(th), &|k| word_tour(mode, "words", k, th).unwrap());
+}
+
 fn symmetric_section(run: &Run, n: usize) {
     // C05: functions with the largest stabilisers
     let cs: Vec<usize> = if n <= 6 || run.thorough() {
@@ -786,7 +917,13 @@ pub fn run_mode(run: &Run, mode: Mode) {
         // representative and the repeated-call history on every 4th member (every 2nd for n = 8)
         family_section(run, mode, n, g, count, if mode == Mode::C04 { meta } else if n >= 8 { 2 } else { 4 });
     }
+    for n in [7usize, 8] {
+        for g in [Grp::P, Grp::N] {
+            embedded_section(run, mode, n, g);
+        }
+    }
     histories(run, mode);
+    word_histories(run, mode);
     if mode == Mode::C05 {
         for n in 0..=8usize {
             symmetric_section(run, n);
